@@ -164,10 +164,6 @@ theorem uid_hex_is_hex_of_decimal (uid : Nat) :
 
 /-! ## C. the handshake -/
 
-/-- the complete conversation of a successful handshake, one entry per write -/
-def expectedMsgs (uid : Nat) (fd : Bool) : List (List UInt8) :=
-  msgNul :: authLine (uidHex uid) :: ((if fd then [negLine] else []) ++ [beginLine])
-
 private theorem authLine_head (hex : List Char) : (authLine hex).head? = some 65 := by
   simp [authLine, authPrefix, asciiBytes]
 
@@ -579,7 +575,100 @@ theorem messages_untouched (uid : Nat) (l1 l2 : List UInt8) (a b tail : List Ev)
     | okFd s1 l1' s2 l2' h0 h1 hr hok' hfd h2 hr2 hag' h3 => cases hfd
   exact ⟨hfd.1, hfd.2, hnofd.1, hnofd.2⟩
 
-/-EXAMPLES-/
+/-! ## non-vacuity and the pipelining observation -/
+
+section Examples
+
+
+-- addresses
+example : parseAddr (fun p => p == "/run/user/1000/bus".toList)
+    "unix:guid=00ff,path=/run/user/1000/bus,abstract=zz,path=/other".toList =
+    .path "/run/user/1000/bus".toList := by decide +kernel
+example : parseAddr (fun _ => false) "unix:abstract=/tmp/dbus-Xy,guid=1".toList =
+    .abstract "/tmp/dbus-Xy".toList := by decide +kernel
+example : parseAddr (fun _ => true) "unix:guid=1,novalue,path=/x".toList = .errNotSupported := by
+  decide +kernel
+example : parseAddr (fun _ => false) "unix:path=/x,abstract=a".toList = .errPathMissing "/x".toList := by
+  decide +kernel
+example : parseAddr (fun _ => true) "tcp:host=localhost,port=1".toList = .errNotSupported := by
+  decide +kernel
+example : parseAddr (fun _ => true) "unix".toList = .errNoAddress := by decide +kernel
+
+-- uid
+example : getUidAsHex 1000 = some "31303030".toList := by decide +kernel
+example : getUidAsHex 0 = some "30".toList := by decide +kernel
+example : getUidAsHex 4294967294 = some "34323934393637323934".toList := by decide +kernel
+
+-- a complete handshake whose replies arrive in pieces (`scriptGood`); the message bytes that follow stay in
+-- the script
+
+example :
+    (connect allOk 1000 true scriptGood).2 = .ok ∧
+    (connect allOk 1000 true scriptGood).1.script = [.chunk (bytesOf "l...")] ∧
+    (connect allOk 1000 true scriptGood).1.written =
+      [[0], bytesOf "AUTH EXTERNAL 31303030\r\n", bytesOf "NEGOTIATE_UNIX_FD\r\n", bytesOf "BEGIN\r\n"] ∧
+    (connect allOk 1000 true scriptGood).1.reads = 4 ∧
+    (connect allOk 1000 true scriptGood).1.replies =
+      [⟨bytesOf "OK 1234", []⟩, ⟨bytesOf "AGREE_UNIX_FD", []⟩] := by decide +kernel
+
+-- rejection: nothing after the AUTH line
+example :
+    (connect allOk 0 true [.chunk (bytesOf "REJECTED EXTERNAL\r\n"), .chunk (bytesOf "OK\r\n")]).2 = .authFailed ∧
+    (connect allOk 0 true [.chunk (bytesOf "REJECTED EXTERNAL\r\n"), .chunk (bytesOf "OK\r\n")]).1.written =
+      [[0], bytesOf "AUTH EXTERNAL 30\r\n"] := by decide +kernel
+
+-- the peer closes in the middle of the reply / the script just ends / a read error / a non-UTF-8 line
+example : (connect allOk 0 false [.chunk (bytesOf "O"), .eof]).2 = .fail .eof := by decide +kernel
+example : (connect allOk 0 false [.chunk (bytesOf "OK")]).2 = .fail .eof ∧
+    (connect allOk 0 false [.chunk (bytesOf "OK")]).1.reads = 2 := by decide +kernel
+example : (connect allOk 0 true [.chunk (bytesOf "OK\r\n"), .err]).2 = .fail .ioOther := by decide +kernel
+example : (connect allOk 0 false [.chunk [0x4f, 0x4b, 0xff, 13, 10]]).2 = .fail .invalidData := by
+  decide +kernel
+-- a failing write (EPIPE) of BEGIN
+example : (connect (fun k => k != 2) 0 false [.chunk (bytesOf "OK\r\n")]).2 = .fail .ioOther ∧
+    beginLine ∉ (connect (fun k => k != 2) 0 false [.chunk (bytesOf "OK\r\n")]).1.written := by
+  decide +kernel
+
+/-- OBSERVATION (real behaviour of `auth.rs`): a server that pipelines both replies into one read. The bytes
+    behind the first CRLF are dropped with the per-step `read_buf`, so the client, after sending
+    NEGOTIATE_UNIX_FD, waits for a reply that it has already thrown away: with the script ending here the
+    model reports eof; a real server that keeps the socket open makes the client block forever. -/
+example :
+    (connect allOk 0 true scriptPipelined).2 = .fail .eof ∧
+    (connect allOk 0 true scriptPipelined).1.written =
+      [[0], bytesOf "AUTH EXTERNAL 30\r\n", bytesOf "NEGOTIATE_UNIX_FD\r\n"] ∧
+    (connect allOk 0 true scriptPipelined).1.replies = [⟨bytesOf "OK 1234", bytesOf "AGREE_UNIX_FD\r\n"⟩] ∧
+    (connect allOk 0 true scriptPipelined).1.reads = 2 := by decide +kernel
+
+/-- the same bytes with the CRLF of the first reply ending a read: success. So the outcome does depend on the
+    chunking once a read carries bytes beyond a CRLF — the hypothesis of `chunking_irrelevant` is needed. -/
+example :
+    (connect allOk 0 true [.chunk (bytesOf "OK 1234\r\n"), .chunk (bytesOf "AGREE_UNIX_FD\r\n")]).2 = .ok := by
+  decide +kernel
+
+/-- bytes behind the last reply's CRLF in the same read (here the start of a message) are consumed and lost -/
+example :
+    (connect allOk 0 false scriptGlued).2 = .ok ∧
+    (connect allOk 0 false scriptGlued).1.script = [.chunk (bytesOf "rest")] ∧
+    (connect allOk 0 false scriptGlued).1.replies = [⟨bytesOf "OK", bytesOf "l..."⟩] := by decide +kernel
+
+-- two chunkings of the same stream are related by `SameStream`
+example : SameStream 2
+    [.chunk (bytesOf "OK\r\n"), .chunk (bytesOf "AGREE_UNIX_FD\r\n"), .chunk [1, 2, 3]]
+    [.chunk (bytesOf "O"), .chunk (bytesOf "K\r"), .chunk (bytesOf "\n"), .chunk (bytesOf "AGREE_UNIX_FD\r\n")] := by
+  refine .line 1 (bytesOf "OK") [.chunk (bytesOf "OK\r\n")]
+    [.chunk (bytesOf "O"), .chunk (bytesOf "K\r"), .chunk (bytesOf "\n")]
+    [.chunk (bytesOf "AGREE_UNIX_FD\r\n"), .chunk [1, 2, 3]] [.chunk (bytesOf "AGREE_UNIX_FD\r\n")]
+    (by decide +kernel)
+    ⟨[bytesOf "OK\r\n"], rfl, by decide +kernel, by decide +kernel⟩
+    ⟨[bytesOf "O", bytesOf "K\r", bytesOf "\n"], rfl, by decide +kernel, by decide +kernel⟩ ?_
+  exact .line 0 (bytesOf "AGREE_UNIX_FD") [.chunk (bytesOf "AGREE_UNIX_FD\r\n")]
+    [.chunk (bytesOf "AGREE_UNIX_FD\r\n")] [.chunk [1, 2, 3]] [] (by decide +kernel)
+    ⟨[bytesOf "AGREE_UNIX_FD\r\n"], rfl, by decide +kernel, by decide +kernel⟩
+    ⟨[bytesOf "AGREE_UNIX_FD\r\n"], rfl, by decide +kernel, by decide +kernel⟩ (.zero _ _)
+
+end Examples
+
 end Rustbus.Auth
 
 #print axioms Rustbus.Auth.addr_resolves_iff
